@@ -103,6 +103,7 @@ type thread struct {
 	nnote  uint32
 	vc     vclock
 	daemon bool
+	killed bool
 	parked bool
 	site   string
 }
@@ -149,6 +150,7 @@ type exec struct {
 	tracing  bool
 	mainDone bool
 	aborted  bool
+	det      int // >0: deterministic phase, every choice takes its default without being offered
 	locs     map[unsafe.Pointer]*locState
 	cleanups []func()
 }
@@ -237,7 +239,8 @@ func (e *exec) startThread(t *thread, f func()) {
 		<-t.wake
 		defer func() {
 			if r := recover(); r != nil {
-				if !IsPoison(r) {
+				// (a panic while the execution is being torn down is an artefact of the teardown itself)
+				if !IsPoison(r) && !e.poison {
 					buf := make([]byte, 8192)
 					buf = buf[:runtime.Stack(buf, false)]
 					e.res.Panics = append(e.res.Panics, PanicRecord{Thread: t.name, Value: fmt.Sprint(r), Stack: string(buf)})
@@ -280,7 +283,7 @@ type transition struct {
 
 func (e *exec) opEnabled(t *thread) bool {
 	o := t.op
-	if o == nil || t.done {
+	if o == nil || t.done || t.killed {
 		return false
 	}
 	switch o.kind {
@@ -349,7 +352,7 @@ func (e *exec) loop() {
 			}
 		}
 		for _, t := range e.threads {
-			if !t.done && t.op != nil && t.op.kind == opSleep && t.op.until > e.now && t.op.until < never {
+			if !t.done && !t.killed && t.op != nil && t.op.kind == opSleep && t.op.until > e.now && t.op.until < never {
 				if earliest < 0 || t.op.until < earliest {
 					earliest = t.op.until
 				}
@@ -362,7 +365,7 @@ func (e *exec) loop() {
 		// idle waiters: enabled only when nothing else (except possibly clock advance) can happen
 		if nActive == 0 {
 			for _, t := range e.threads {
-				if t.done || t.op == nil || t.op.kind != opIdle {
+				if t.done || t.killed || t.op == nil || t.op.kind != opIdle {
 					continue
 				}
 				if t.op.idleAdv && earliest >= 0 {
@@ -377,7 +380,7 @@ func (e *exec) loop() {
 			return // deadlock or quiescence; the harness inspects Blocked
 		}
 		idx := 0
-		if len(opts) > 1 {
+		if len(opts) > 1 && e.det == 0 {
 			os := make([]Option, len(opts))
 			for i, o := range opts {
 				cl := Switch
@@ -466,7 +469,7 @@ func (e *exec) teardown() {
 			if t.op != nil {
 				lbl = t.op.label
 			}
-			if e.mainDone || t.id != 0 {
+			if (e.mainDone || t.id != 0) && !t.killed {
 				e.res.Blocked = append(e.res.Blocked, t.name+" @ "+lbl)
 			}
 		}
@@ -553,7 +556,7 @@ func Choose(c Class, kind string, labels ...string) int {
 		return 0
 	}
 	e := ex
-	if len(labels) <= 1 {
+	if len(labels) <= 1 || e.det > 0 {
 		return 0
 	}
 	opts := make([]Option, len(labels))
@@ -626,7 +629,7 @@ func BlockedOthers() []string {
 	e := ex
 	var out []string
 	for _, t := range e.threads {
-		if t == e.cur || t.done || t.op == nil {
+		if t == e.cur || t.done || t.op == nil || t.killed {
 			continue
 		}
 		if !e.opEnabled(t) {
@@ -703,3 +706,34 @@ func Abort() {
 
 // Aborted reports whether the current/last execution was ended by Abort.
 func (r *Result) WasAborted() bool { return r.Aborted }
+
+// KillOthers makes every thread except the caller dead to the scheduler (the
+// process they belonged to has crashed) and disarms all timers. The caller
+// goes on as the restarted process.
+func KillOthers() {
+	e := ex
+	if e == nil {
+		return
+	}
+	for _, t := range e.threads {
+		if t != e.cur && !t.done {
+			t.killed = true
+		}
+	}
+	for _, tm := range e.timers {
+		tm.armed = false
+	}
+}
+
+// Deterministic brackets a phase (harness set-up) in which every choice takes
+// its default and is not offered to the explorer.
+func Deterministic(on bool) {
+	if ex == nil {
+		return
+	}
+	if on {
+		ex.det++
+	} else if ex.det > 0 {
+		ex.det--
+	}
+}
